@@ -482,7 +482,7 @@ def run_property(chk, prop, laws, quick_gen=300, thorough_gen=4000, scns=None, n
                         if any(f[0] == "a" for f in fs) and any(f[0] == "p" for f in fs):
                             lines.append("engine\tordered\t" + pj(fs))
                             line_meta.append(("ordered", dict(case, step=i, step_kind=trace[i] if i < len(trace) else None), fs))
-                if "C02" in laws:
+                if "C02" in laws or "C11" in laws:
                     lines.append("engine\tnotes\t" + pj([n["detail"]["status"] for n in mon.notes]))
                     line_meta.append(("notes", case, [n["detail"]["status"] for n in mon.notes]))
             s.close()
@@ -534,7 +534,8 @@ def run_property(chk, prop, laws, quick_gen=300, thorough_gen=4000, scns=None, n
                        law="C03.ack_after_consequences (Lean stepOrdered: nothing is published after an acknowledgement within a handler step)")
         elif kind == "notes" and m is False:
             chk.report("impl-violates-law", case, impl={"notifications": extra}, model={"notesOK": False},
-                       law="C02.notifications are a prefix of [RUNNING, T] (Lean lifecycle automaton)")
+                       law=("C02.notifications are a prefix of [RUNNING, T] (Lean lifecycle automaton)" if "C02" in laws else
+                            "C11.each status change is published exactly once (Lean lifecycle automaton over the notifications)"))
     chk.cov["streams"]["scenarios"] = len(scns)
     chk.cov["rule"] = rule or ("hand-written scenarios (sequential machines of every state type incl. retry/catch/path errors and an EXPRESS "
                        "machine; Parallel 2-3 and Map with MaxConcurrency 0-2, all succeeding or with exactly one unhandled failing "
